@@ -580,15 +580,15 @@ func (im *Impl) Exec(line string) (out []string) {
 	case "crash":
 		i, c := atoi(f[1]), atoi(f[2])
 		raw := im.rawIndex(i)
-		img := tfs.CrashImage(im.FS.Base(), im.FS.Events(0, im.lastTo), im.lastFrom+raw, c)
+		nfs := tfs.CrashKeepPending(im.FS.Base(), im.FS.Events(0, im.lastTo), im.lastFrom+raw, c)
 		im.abandon()
-		im.FS = tfs.FromImage(img)
+		im.FS = nfs
 		im.lastFrom, im.lastTo = 0, 0
 		return []string{"crash ok"}
 	case "kill":
-		img := im.FS.Image()
+		nfs := tfs.CrashKeepPending(im.FS.Base(), im.FS.Events(0, im.FS.NumEvents()), im.FS.NumEvents(), 0)
 		im.abandon()
-		im.FS = tfs.FromImage(img)
+		im.FS = nfs
 		im.lastFrom, im.lastTo = 0, 0
 		return []string{"kill ok"}
 	case "save":
